@@ -336,7 +336,17 @@ def shard(tier, seed, idx, n):
     for i in range(total):
         if i % n != idx:
             continue
-        scenario(res, base + i, tier)
+        try:
+            scenario(res, base + i, tier)
+        except Exception as e:
+            import traceback
+            tb = traceback.format_exc()
+            if "/pymemcache/" in tb:
+                res.violation("operation-raises-on-healthy-servers:%s" % type(e).__name__,
+                              "scenario %d: %s" % (base + i, tb[-700:]), base + i)
+                res.case(None)
+            else:
+                raise
     return res
 
 
